@@ -275,6 +275,14 @@ def _poly(coeffs: Sequence[Any], x: F) -> F:
     return r
 
 
+def _coef(x: Any) -> F:
+    """A coefficient as the description states it: the XML carries the shortest decimal text of a float (0.1), and that
+    decimal number -- not its nearest binary double -- is what the description means."""
+    if isinstance(x, float) and x == x and x not in (float("inf"), float("-inf")):
+        return F(repr(x))
+    return F(x)
+
+
 class _Piece:
     """One linear piece f(x) = (n0 + n1 x) / d0 on the limits of its scale."""
 
@@ -282,9 +290,9 @@ class _Piece:
         self.s = s
         num = s["num"]
         den = s.get("den") or [1]
-        self.n0 = F(num[0])
-        self.n1 = F(num[1]) if len(num) > 1 else F(0)
-        self.d0 = F(den[0])
+        self.n0 = _coef(num[0])
+        self.n1 = _coef(num[1]) if len(num) > 1 else F(0)
+        self.d0 = _coef(den[0])
         self.slope = self.n1 / self.d0
         self.lo, self.hi = _lim(s.get("lo")), _lim(s.get("hi"))
         self.inv = None if s.get("inv") is None else F(s["inv"])
